@@ -13,6 +13,7 @@ import (
 	"html"
 	"io"
 	"mime/multipart"
+	"net/http"
 	"net/http/httptest"
 	"os"
 	"os/exec"
@@ -20,6 +21,7 @@ import (
 	"regexp"
 	"strconv"
 	"strings"
+	"sync"
 	"time"
 
 	"github.com/gin-gonic/gin"
@@ -350,7 +352,10 @@ type cliReqJSON struct {
 	PeerIds []string `json:"peerIds"`
 }
 
-func runC19(h *H) { runCliAndReaders(h, "C19", h.budget(150, 3000)) }
+func runC19(h *H) {
+	runCliAndReaders(h, "C19", h.budget(150, 3000))
+	runCliPipeline(h, "C19")
+}
 
 func runCliAndReaders(h *H, prop string, n int) {
 	g := h.g
@@ -606,6 +611,143 @@ func runCliAndReaders(h *H, prop string, n int) {
 		})
 		if pan != "" {
 			w.Str("panic")
+		}
+		h.emit(w)
+	}
+}
+
+// ---------------------------------------------------------------------------------------------
+// C19 loopback pipeline: the real CLI binary against the real OpenAPI handlers served on
+// 127.0.0.1 (the response body is recorded), output CSV parsed back.
+
+type recorder struct {
+	h    http.Handler
+	mu   sync.Mutex
+	last []byte
+}
+
+func (r *recorder) ServeHTTP(w http.ResponseWriter, req *http.Request) {
+	rec := httptest.NewRecorder()
+	r.h.ServeHTTP(rec, req)
+	r.mu.Lock()
+	r.last = append([]byte{}, rec.Body.Bytes()...)
+	r.mu.Unlock()
+	for k, v := range rec.Header() {
+		w.Header()[k] = v
+	}
+	w.WriteHeader(rec.Code)
+	w.Write(rec.Body.Bytes())
+}
+
+func runCliPipeline(h *H, prop string) {
+	g := h.g
+	exe := buildCLI(h)
+	defer os.Remove(exe)
+	work := filepath.Join(filepath.Dir(exe), "pipework")
+	os.RemoveAll(work)
+	os.MkdirAll(work, 0o755)
+	defer os.RemoveAll(work)
+	env := newOapiEnv()
+	rc := &recorder{h: env.e}
+	srv := httptest.NewServer(rc)
+	defer srv.Close()
+	n := h.budget(40, 600)
+	for k := 0; k < n; k++ {
+		var lt, pt [][]string
+		alpha := ""
+		if k == 0 { // the README transcript
+			lt = [][]string{{"from", "to", "value"}, {"ek", "sd", "100"}, {"vm", "sd", "100"}, {"ek", "vm", "75"}}
+			pt = [][]string{{"peer_id", "value"}, {"ek", "50"}, {"vm", "100"}}
+		} else if k == 1 {
+			lt = [][]string{{"from", "to", "value"}, {"ek", "sd", "100"}, {"vm", "sd", "100"}, {"ek", "vm", "75"}}
+			pt = [][]string{{"peer_id", "value"}, {"ek", "50"}, {"vm", "100"}}
+			alpha = "0.01"
+		} else {
+			dim := g.intn(5) + 2
+			names := g.peerNames(dim)
+			lt = [][]string{{"from", "to", "value"}}
+			for _, c := range g.r.Perm(dim * dim)[:g.intn(dim*dim)+1] {
+				lt = append(lt, []string{names[c/dim], names[c%dim], fmtLevel(g)})
+			}
+			if g.intn(2) == 0 {
+				pt = [][]string{{"peer_id", "value"}}
+				for i := 0; i < dim; i++ {
+					if g.intn(2) == 0 {
+						pt = append(pt, []string{names[i], fmtLevel(g)})
+					}
+				}
+				if len(pt) == 1 {
+					pt = append(pt, []string{names[0], "1"})
+				}
+			}
+			if g.intn(3) == 0 {
+				alpha = []string{"0.2", "0.9", "1"}[g.intn(3)]
+			}
+		}
+		ltF, ptF, outF := filepath.Join(work, "lt.csv"), filepath.Join(work, "pt.csv"), filepath.Join(work, "out.csv")
+		os.Remove(outF)
+		os.WriteFile(ltF, csvBytes(lt), 0o644)
+		args := []string{"basic", "compute", "-H", srv.URL + "/basic/v1", "-l", ltF, "-o", outF}
+		if pt != nil {
+			os.WriteFile(ptF, csvBytes(pt), 0o644)
+			args = append(args, "-p", ptF)
+		}
+		if alpha != "" {
+			args = append(args, "-a", alpha)
+		}
+		rc.mu.Lock()
+		rc.last = nil
+		rc.mu.Unlock()
+		cmd := exec.Command(exe, args...)
+		var stderr bytes.Buffer
+		cmd.Stderr = &stderr
+		err := cmd.Run()
+		w := h.line(prop, "pipeline").records(lt).Str("pt").Bool(pt != nil)
+		if pt != nil {
+			w.records(pt)
+		}
+		af := 0.5
+		if alpha != "" {
+			af, _ = strconv.ParseFloat(alpha, 64)
+		}
+		w.F(af).Bar()
+		outB, rerr := os.ReadFile(outF)
+		var resp struct {
+			EigenTrust struct {
+				Entries []struct {
+					I int     `json:"i"`
+					V float64 `json:"v"`
+				} `json:"entries"`
+			} `json:"eigenTrust"`
+		}
+		rc.mu.Lock()
+		body := rc.last
+		rc.mu.Unlock()
+		switch {
+		case strings.Contains(stderr.String(), "panic:"):
+			w.Str("panic")
+		case err != nil || rerr != nil || json.Unmarshal(body, &resp) != nil:
+			w.Str("err")
+		default:
+			recs, _ := csvParse(outB)
+			w.Str("ok").Int(len(recs))
+			for _, r := range recs {
+				v := -1.0
+				if len(r) >= 2 {
+					if f, e := strconv.ParseFloat(r[1], 64); e == nil {
+						v = f
+					}
+				}
+				nm := ""
+				if len(r) >= 1 {
+					nm = r[0]
+				}
+				w.Str(hexStr(nm)).F(v)
+			}
+			w.Int(len(resp.EigenTrust.Entries))
+			for _, e := range resp.EigenTrust.Entries {
+				w.Int(e.I).F(e.V)
+			}
 		}
 		h.emit(w)
 	}
